@@ -36,6 +36,9 @@ class Verifier:
         self.global_writes = []
         self.results = {}       # function display name -> dict
         self.errors = []
+        # fork the worker processes for the certificate search now, while this process is still single-threaded
+        from .ring import pool
+        list(pool().map(abs, range(12)))
 
     # ------------------------------------------------------------ contracts
     def load_contracts(self, contracts_dir):
@@ -74,11 +77,14 @@ class Verifier:
         return f["short"] == "init" or f["short"].startswith("init#")
 
     # ------------------------------------------------------------ globals
-    def find_global(self, run, name):
-        pkg = run.f.get("pkg", "")
-        full = pkg + "." + name
-        if full in self.prog.globals:
-            return full
+    def find_global(self, run, name, pkg=None):
+        for pk in ([pkg] if pkg else []) + [run.f.get("pkg", "")]:
+            full = pk + "." + name
+            if full in self.prog.globals:
+                return full
+        cands = [g for g in self.prog.globals if g.endswith("." + name)]
+        if len(cands) == 1:
+            return cands[0]
         return None
 
     def global_ptr(self, run, st, full, gtype=None):
@@ -118,7 +124,14 @@ class Verifier:
         pass
 
     def globalinv_for(self, run):
-        return self.contracts.globalinv.get(run.f.get("pkg", ""), [])
+        """global invariants of the function's package and of package field (which every package here imports);
+        each is evaluated in the scope of the package that states it"""
+        out = []
+        pk = run.f.get("pkg", "")
+        for p in ([FIELD] if pk != FIELD else []) + [pk]:
+            for (lab, ast, txt) in self.contracts.globalinv.get(p, []):
+                out.append((lab, ast, txt, p))
+        return out
 
     # ------------------------------------------------------------ partitions
     def partitions(self, f, c):
